@@ -260,7 +260,55 @@ def _concurrent_origin(p1, a1, p2, a2, pg1, pg2, robots_status_i, same_origin, d
     return all(it.is_processed for it in items)
 
 
-def _redirect_target(o1, o2, p2, code_i, two_hops, robots2_i):
+def _robots_redirected_away(target_i, code_i, pg_i):
+    """The robots.txt of a retired origin redirects to SOME page of another origin (its front page, its robots.txt, a 404 page).  What
+    comes back is at most the old origin's robots.txt: the other origin still has to be asked for its own before it is crawled."""
+    clear_url_memo()
+    target = pick(['http://b.example/', 'http://b.example/robots.txt', 'http://b.example/moved.html', 'http://b.example/open/2'], target_i)
+    code = pick([301, 302, 307], code_i)
+    page = pick(_PAGES, pg_i)
+
+    def answer(k, request):
+        info = request.url_info
+        if info.hostname == 'a.example' and info.path == '/robots.txt':
+            return (code, target)
+        if info.path == '/robots.txt':
+            return (200, None)
+        return (200, None)
+    with nosym():
+        _install_tempfiles()
+        client = stubs.StubHTTPClient(answer=answer)
+        # b.example's own robots.txt forbids /private; every other body is a harmless page that allows everything
+        client.body_for = lambda resp: _RULES if (resp.request.url_info.hostname == 'b.example' and resp.request.url_info.path == '/robots.txt') \
+            else b'<html>User-agent: *\nAllow: /\n</html>'
+        checker = RobotsTxtChecker(web_client=WebClient(http_client=client))
+        env = stubs.build_web(client, filters=[F.SchemeFilter()], robots_checker=checker)
+        _install_tempfiles()
+        items = []
+        for u in ('http://a.example/open/1', 'http://b.example' + page):
+            env.table.add(u)
+            item = ItemSession(env.app, env.table.check_out(Status.todo))
+            run(env.proc.process(item))
+            items.append(item)
+    # over the request log: before b.example's page is requested, b.example/robots.txt has been obtained as the robots.txt OF b.example
+    # (a fetch of that URL made while following a.example's redirect counts, a fetch of some other page of b.example does not)
+    seen_b_robots = False
+    for u in client.urls:
+        info = URLInfo.parse(u)
+        if info.hostname != 'b.example':
+            continue
+        if info.path == '/robots.txt':
+            seen_b_robots = True
+        elif u == 'http://b.example' + page and info.path == page:
+            if not seen_b_robots and u != target:
+                return False
+            if page.startswith('/private') and u != target:
+                return False                                # disallowed by b.example's robots.txt
+    hit('visited')
+    return all(i.is_processed for i in items)
+
+
+def _redirect_target(o1, o2, p2, code_i, two_hops, robots2_i, strong=True):
     """An allowed page answers with a redirect to a page that may be disallowed - on the same or on another origin."""
     clear_url_memo()
     with nosym():
@@ -289,7 +337,7 @@ def _redirect_target(o1, o2, p2, code_i, two_hops, robots2_i):
         client = stubs.StubHTTPClient(answer=answer)
         client.body_for = lambda resp: _RULES if resp.request.url_info.path == '/robots.txt' else b''
         checker = RobotsTxtChecker(web_client=WebClient(http_client=client))
-        env = stubs.build_web(client, filters=[F.SchemeFilter()], robots_checker=checker)
+        env = stubs.build_web(client, filters=[F.SchemeFilter()], robots_checker=checker, strong_redirects=strong)
         _install_tempfiles()
         env.table.add(start)
         rec = env.table.check_out(Status.todo)
@@ -461,14 +509,20 @@ HARNESSES = [
           'loop turns per session - and network round trips suspend), schedules '
           'within a preemption bound: nothing of an origin is requested before a robots.txt fetch for it completed, nothing disallowed '
           'is requested, robots.txt is not requested again after a fetch of it completed'),
-    H('redirect_target', '_redirect_target', 'o1: int, o2: int, p2: int, code_i: int, two_hops: bool, robots2_i: int',
+    H('robots_redirected_away', '_robots_redirected_away', 'target_i: int, code_i: int, pg_i: int', pre=['0 <= target_i <= 3 and 0 <= code_i <= 2 and 0 <= pg_i <= 2'],
+      timeout={'quick': 250, 'thorough': 600}, samples=[(0, 0, 1), (1, 0, 1), (2, 1, 0)], need=['visited'],
+      funcs=['wpull/protocol/http/robots.py:RobotsTxtChecker.fetch_robots_txt', 'wpull/protocol/http/robots.py:RobotsTxtChecker._read_content'],
+      doc='robots.txt of one origin redirects to a page of ANOTHER origin (front page, its robots.txt, some page): when that other origin '
+          'is crawled afterwards its own robots.txt is obtained first and its disallowed URLs are not requested'),
+    H('redirect_target', '_redirect_target', 'o1: int, o2: int, p2: int, code_i: int, two_hops: bool, robots2_i: int, strong: bool',
       pre=['0 <= o1 <= 3 and 0 <= o2 <= 3 and 0 <= p2 <= 2 and 0 <= code_i <= 4 and 0 <= robots2_i <= 2'],
-      parts=[{'tag': 'to%d_hops%d' % (o, h), 'fix': {'two_hops': str(bool(h)), 'o2': str(o)}, 'pre': ['o1 == 0 or o1 == 3']} for o in range(4) for h in (0, 1)],
-      timeout={'quick': 280, 'thorough': 900}, samples=[(0, 0, 1, 1, False, 0), (0, 3, 1, 0, False, 0), (0, 3, 0, 0, True, 2)],
+      parts=[{'tag': 'to%d_hops%d' % (o, h), 'fix': {'two_hops': str(bool(h)), 'o2': str(o), 'strong': 'True'}, 'pre': ['o1 == 0 or o1 == 3']} for o in range(4) for h in (0, 1)]
+      + [{'tag': 'weak_to%d' % o, 'fix': {'two_hops': 'False', 'o2': str(o), 'strong': 'False', 'o1': '0', 'robots2_i': '0'}} for o in (0, 3)],
+      timeout={'quick': 280, 'thorough': 900}, samples=[(0, 0, 1, 1, False, 0, True), (0, 3, 1, 0, False, 0, True), (0, 3, 0, 0, True, 2, True), (0, 0, 1, 0, False, 0, False)],
       need=['same-origin', 'cross-origin', 'to-disallowed'],
       funcs=['wpull/processor/web.py:WebProcessorSession._process_loop', 'wpull/processor/rule.py:FetchRule.check_subsequent_web_request',
              'wpull/protocol/http/robots.py:RobotsTxtChecker.can_fetch'],
-      doc='an allowed page redirects (5 codes, 1-2 hops) to an allowed or disallowed page of the same or another origin (robots.txt of '
+      doc='(with and without --strong-redirects) an allowed page redirects (5 codes, 1-2 hops) to an allowed or disallowed page of the same or another origin (robots.txt of '
           'the other origin 200 / 404 / 503): over the request log, no disallowed URL is requested and every origin\'s robots.txt is '
           'obtained before its first URL'),
     H('matcher', '_matcher',
